@@ -244,8 +244,26 @@ def chainEnter : List (Visitor σ) → Node → Option (Node × Bool) → σ →
 def chainLeave (vs : List (Visitor σ)) (n : Node) (s : σ) : σ :=
   vs.foldr (fun v s => v.leave n s) s
 
-def chained (vs : List (Visitor σ)) : Visitor σ where
-  enter n s := chainEnter vs n (some (n, true)) s
+/-- `ChainedVisitor.enter` with proposed fix C18-W8 ("the skip is the raiser's own"): a member raising `SkipNode`
+    does not stop the loop; when some member skipped, the members that entered are LEFT at once (in reverse order,
+    with the argument object) and the chain raises `SkipNode`, so that the children are visited by nobody.
+    `entered` = the members that returned from `enter`, latest first. -/
+def chainEnterP : List (Visitor σ) → Node → Option (Node × Bool) → List (Visitor σ) → Bool → σ → Act × σ
+  | [], orig, _, entered, skipped, s =>
+    if skipped then (.skip orig, entered.foldl (fun s v => v.leave orig s) s) else (.keep orig, s)
+  | _ :: _, orig, none, entered, skipped, s =>
+    if skipped then (.skip orig, entered.foldl (fun s v => v.leave orig s) s) else (.keep orig, s)
+  | v :: vs, orig, some (c, isOrig), entered, skipped, s =>
+    match v.enter c s with
+    | (.keep c', s') => chainEnterP vs (if isOrig then c' else orig) (some (c', isOrig)) (v :: entered) skipped s'
+    | (.replace c', s') => chainEnterP vs orig (some (c', false)) (v :: entered) skipped s'
+    | (.delete, s') => chainEnterP vs orig none (v :: entered) skipped s'
+    | (.skip c', s') => chainEnterP vs (if isOrig then c' else orig) (some (c, isOrig)) entered true s'
+    | (.raise e, s') => (.raise e, s')
+
+/-- `personal = false`: the code as it is (a member's `SkipNode` aborts the loop); `true`: with fix C18-W8 -/
+def chained (vs : List (Visitor σ)) (personal : Bool := false) : Visitor σ where
+  enter n s := if personal then chainEnterP vs n (some (n, true)) [] false s else chainEnter vs n (some (n, true)) s
   leave n s := chainLeave vs n s
 
 end
